@@ -550,8 +550,11 @@ pub fn check_case(ctx: &Ctx, case: &BuilderCase, rep: &mut CaseReport) -> CaseRe
             let ps = prefix.to_string_lossy().into_owned();
             set_mode(&bindir, "report", &[&ps, "0", "readstdin"]);
             let expect = m.terminate(t);
-            let got = run_term(e, t, &prefix);
+            let (got, deadlock) = crate::hang::guard(|| run_term(e, t, &prefix));
             reap_all();
+            if let Some(d) = deadlock {
+                return Err(Fail::new("C16:terminator-hangs", format!("[{}] terminator {:?} never returns (model: {}): {}", which, t, if expect.is_err() { "must be refused" } else { "runs" }, d)));
+            }
             match (expect, got) {
                 (Err(_), Err(msg)) if !msg.starts_with("error:") => {
                     kinds.insert("refused-terminator");
